@@ -277,6 +277,11 @@ def apalache(module: str, scratch: str, inv: str, init: str = 'Init', next_: str
 
 
 def sany(path: str) -> bool:
-    p = subprocess.run(['java', '-cp', TLA_CP, 'tla2sany.SANY', os.path.basename(path)],
-                       cwd=os.path.dirname(path), stdout=subprocess.PIPE, stderr=subprocess.STDOUT, text=True)
+    import tempfile
+    tmp = tempfile.mkdtemp(prefix='vf-sany-')        # (SANY unpacks its standard modules into java.io.tmpdir)
+    try:
+        p = subprocess.run(['java', '-Djava.io.tmpdir=' + tmp, '-cp', TLA_CP, 'tla2sany.SANY', os.path.basename(path)],
+                           cwd=os.path.dirname(path), stdout=subprocess.PIPE, stderr=subprocess.STDOUT, text=True)
+    finally:
+        shutil.rmtree(tmp, ignore_errors=True)
     return p.returncode == 0 and 'error' not in p.stdout.lower().replace('errors: 0', ''), p.stdout
